@@ -42,6 +42,8 @@ def L(q, t=None):
 
 # property -> lanes per tier (+ optional python runner module for orchestrated lanes)
 PROPS = {
+    "C01": dict(lanes=L(["rel", "dbg"])),
+    "C02": dict(lanes=L(["rel", "dbg"])),
     "C03": dict(lanes=L(["rel", "dbg"])),
     "C04": dict(lanes=L(["rel", "dbg"])),
     "C05": dict(lanes=L(["rel", "dbg"])),
@@ -66,6 +68,7 @@ PROPS = {
     "C22": dict(lanes=L(["rel", "dbg"])),
     "C27": dict(lanes=L(["rel", "dbg"])),
     "C31": dict(lanes=L(["rel", "dbg"])),
+    "C34": dict(lanes=L(["rel", "dbg"])),
     "C13": dict(lanes=L(["rel", "dbg"])),
     "C32": dict(lanes=L(["rel", "dbg"])),
 }
